@@ -46,6 +46,8 @@ ASSUMPTIONS = [
     "get_data on a one-cell block may return the bare cell or a one-element list (both accepted); one-cell list indices and one-cell set_data blocks are not generated for assignment",
     "an assignment with fewer indices than axes may either raise (state unchanged) or act on all trailing axes, as __getitem__ does; anything else is a violation",
     "invalid block assignments are generated with every element invalid (atomicity of a partially valid list is not part of the property)",
+    "calls the model marks invalid (wrong column count, non-2-D cell, wrong number of arrays for a block, duplicate/existing/unknown field, wrong flattened length, out-of-range position, wrong number of get_data/set_data indices) must raise (any exception type) and leave every live vector unchanged; negative positions in get_data/set_data may raise or mean what they mean for __getitem__",
+    "unit texts the caller did not choose (default units, units of added fields) are adopted from the library; only their count and position are judged",
     "cell dtype is not part of the property: values are compared exactly, the model adopts the real cell's dtype whenever the values agree; integer cells only receive integer-closed field arithmetic",
     "comparisons are exact (model and library perform the same IEEE operations on the same operands): tolerance 0, NaN equals NaN",
 ]
